@@ -8,11 +8,11 @@ import (
 
 // vNum is a decimal literal hole: [-] (0 | d | d d) [. f [f]]
 type vNum struct {
-	text     []byte
-	neg      bool
-	intD     []byte
-	fraD     []byte
-	isFloat  bool
+	text    []byte
+	neg     bool
+	intD    []byte
+	fraD    []byte
+	isFloat bool
 }
 
 // vNumber builds a number literal with up to maxInt integer digits and up to
